@@ -161,3 +161,20 @@ Proof.
   cbv zeta. split; [|split; vm_compute; reflexivity].
   unfold catable_part. split; [cbn; lia|]. split; [exists 22%N|]; vm_compute; reflexivity.
 Qed.
+
+(* boolean form, evaluated by the C08 check on the first bytes of real catable streams *)
+Definition catable_partb (wl : N) (m : list N) : bool :=
+  (6 <=? length m)%nat
+  && match rfc_wbits (byte_at m 0 + 256 * byte_at m 1) with Some (_, wl') => (wl' =? wl)%N | None => false end
+  && match first_header_len (skipn (N.to_nat wl) (bits_of_bytes (takeN 6 m))) with Some h => (h =? 20)%N | None => false end.
+
+Lemma catable_partb_sound wl m : catable_partb wl m = true -> catable_part wl m.
+Proof.
+  unfold catable_partb, catable_part. intros H.
+  apply andb_true_iff in H. destruct H as [H H3]. apply andb_true_iff in H. destruct H as [H1 H2].
+  split; [apply Nat.leb_le; exact H1|]. split.
+  - destruct (rfc_wbits (byte_at m 0 + 256 * byte_at m 1)) as [[lg wl']|]; [|discriminate].
+    apply N.eqb_eq in H2. subst wl'. exists lg. reflexivity.
+  - destruct (first_header_len (skipn (N.to_nat wl) (bits_of_bytes (takeN 6 m)))) as [h|]; [|discriminate].
+    apply N.eqb_eq in H3. subst h. reflexivity.
+Qed.
